@@ -254,9 +254,11 @@ def WF (c : Classifier) : Bool := ["TEXT", "KEYWORD", "PARTICLE"].contains c.nam
 def particleClasses : List String → List String
   | [] => []
   | _ :: rest => [":", "PARTICLE"] ++ rest.flatMap (fun _ => [",", "PARTICLE"])
+def numberClasses : Option String → List String
+  | some _ => ["NUMBER"]
+  | none => []
 def classes (c : Classifier) : List String :=
-  (if c.star then ["*"] else []) ++ [c.nameCls] ++ (match c.number with | some _ => ["NUMBER"] | none => []) ++
-    particleClasses c.particles
+  (if c.star then ["*"] else []) ++ [c.nameCls] ++ numberClasses c.number ++ particleClasses c.particles
 def render (c : Classifier) : List String :=
   [(if c.star then "*" else "") ++ c.name ++ (c.number.getD "") ++
     (match c.particles with | [] => "" | p :: ps => ":" ++ p ++ String.join (ps.map ("," ++ ·)))]
